@@ -267,8 +267,15 @@ package scs
 //@   loop 4 invariant @range 0 - 1 <= i && i < nbBits && wfB(builder)
 //@   loop 4 invariant @pad-kept len(aBits) == nbBits && len(entry(aBits)) <= nbBits && hiS(builder, aBits, 0) == hiS(builder, entry(aBits), 0) && samePrefix(builder, aBits, entry(aBits))
 //@   loop 4 invariant @ones-kept 0 <= t && t <= nbBits && forall k int :: 0 <= k && k < t ==> bigBit(*bound, k) == 1
-//@   loop 4 invariant @p-kept len(p) == nbBits + 1 && forall k int :: t <= k && k < nbBits ==> denS(builder, p[k]) == (bigBit(*bound, k) == 0 ? denS(builder, p[k+1]) : fmul(denS(builder, p[k+1]), denS(builder, aBits[k])))
+//@   loop 4 invariant @p-kept len(p) == nbBits + 1 && forall k int :: trig(as(p[k], "expr.Term[E]").VID) t <= k && k < nbBits ==> denS(builder, p[k]) == (bigBit(*bound, k) == 0 ? denS(builder, p[k+1]) : fmul(denS(builder, p[k+1]), denS(builder, aBits[k])))
 //@   loop 4 invariant @bools forall k int :: i < k && k < nbBits ==> isBool(denS(builder, aBits[k]))
+//   two facts about the bit just processed (index i+1), proved on their own so that the lex-* steps below are left
+//   with integer reasoning only: at a zero bit of the bound an agreeing prefix forces the digit to zero; at a
+//   one bit the running product is one exactly when it was and the digit is one
+//@   loop 4 invariant @zero-forced i + 1 >= t && i + 1 < nbBits && bigBit(*bound, i + 1) == 0 && denS(builder, p[i+2]) == f1 ==> denS(builder, aBits[i+1]) == f0
+//@   loop 4 invariant @hi-step i + 1 < nbBits ==> hiS(builder, aBits, i + 1) == (denS(builder, aBits[i+1]) == f1 ? 1 : 0) + 2 * hiS(builder, aBits, i + 2) && bhi(*bound, i + 1) == bigBit(*bound, i + 1) + 2 * bhi(*bound, i + 2) && (bigBit(*bound, i + 1) == 0 || bigBit(*bound, i + 1) == 1)
+//@   loop 4 invariant @prod-inst i + 1 >= t && i + 1 < nbBits && bigBit(*bound, i + 1) == 1 ==> denS(builder, p[i+1]) == fmul(denS(builder, p[i+2]), denS(builder, aBits[i+1])) && isBool(denS(builder, aBits[i+1])) && isBool(denS(builder, p[i+2]))
+//@   loop 4 invariant @prod-cases i + 1 >= t && i + 1 < nbBits && bigBit(*bound, i + 1) == 1 ==> (denS(builder, p[i+1]) == f1) == (denS(builder, p[i+2]) == f1 && denS(builder, aBits[i+1]) == f1)
 //@   loop 4 invariant @le hiS(builder, aBits, i + 1) <= bhi(*bound, i + 1)
 //@   loop 4 invariant @lex-bool i + 1 >= t ==> isBool(denS(builder, p[i+1]))
 //@   loop 4 invariant @lex-eq i + 1 >= t && denS(builder, p[i+1]) == f1 ==> hiS(builder, aBits, i + 1) == bhi(*bound, i + 1)
